@@ -19,7 +19,7 @@ META = dict(
         quick="every graph on <=3 nodes with all relabelings (solver-chosen bijection onto an id pool x solver-chosen "
               "insertion order), 4-node graphs with <=4 bonds under all bijections and reversed insertion order, C4 and "
               "K4-e with fixed labels; element in {C,N}, hcount in {0,1}, order in {1,2}; back-ends generic, wl, morgan, "
-              "nauty; rule-like graphs with pair-valued bond orders (3-chain, triangle, 4-ring; orders in {1,2}x{1,2}, all-carbon in the quick tier); the two-fold symmetric all-carbon dimer of the triangle (bicyclopropyl skeleton, 6 atoms, mirrored symbolic bond orders) under every numbering [thorough: the dimers of the other rooted 3-atom graphs and one 8-atom dimer with single bonds]; both copies of the module; soundness/completeness on all pairs of equal-size graphs <=3 nodes",
+              "nauty; rule-like graphs with pair-valued bond orders (3-chain, triangle, 4-ring; orders in {1,2}x{1,2}, all-carbon in the quick tier); the two-fold symmetric all-carbon dimer of the triangle (bicyclopropyl skeleton, 6 atoms, mirrored symbolic bond orders) under every numbering [thorough: the dimers of the other rooted 3-atom graphs and one 8-atom dimer with single bonds]; both copies of the module; soundness/completeness on all pairs of equal-size graphs <=3 nodes Additionally a few two-/three-atom shards with charges in {-2,-1}: different labels whose hash() values coincide in CPython.",
         thorough="4-node graphs with all insertion orders, 5-node graphs (<=5 bonds) and C5, C6, K2,3 under solver-chosen "
                  "bijections; pairs up to 4 nodes",
     ),
@@ -81,7 +81,7 @@ def build_dimer(E, pre, k, half_edges, orders=(1, 2)):
     return g
 
 
-def build(E, pre, n, edges, fixed=False, noh=False, pairs=False, mono=False):
+def build(E, pre, n, edges, fixed=False, noh=False, pairs=False, mono=False, neg=False):
     if fixed:
         g = nx.Graph()
         for v in range(1, n + 1):
@@ -89,7 +89,7 @@ def build(E, pre, n, edges, fixed=False, noh=False, pairs=False, mono=False):
         for u, v in edges:
             g.add_edge(u, v, order=1)
         return g
-    g, _ = sym_mol(E, pre, n, [tuple(e) for e in edges], elements=("C",) if mono else ("C", "N"), hcounts=(0,) if noh else (0, 1), charges=(0,),
+    g, _ = sym_mol(E, pre, n, [tuple(e) for e in edges], elements=("C",) if mono else ("C", "N"), hcounts=(0,) if noh else (0, 1), charges=(-2, -1) if neg else (0,),
                    orders=(1, 2))
     if pairs:
         # rule / ITS-like graph: every bond order is a (before, after) pair
@@ -98,9 +98,9 @@ def build(E, pre, n, edges, fixed=False, noh=False, pairs=False, mono=False):
     return g
 
 
-def h_canon(E, n, edges, backend, copy, relab, fixed=False, noh=False, pairs=False, mono=False, dimer=0):
+def h_canon(E, n, edges, backend, copy, relab, fixed=False, noh=False, pairs=False, mono=False, dimer=0, neg=False):
     GC, CG = canon_cls(copy)
-    g = build_dimer(E, "g", dimer, edges, (1, 2) if dimer <= 3 else (1,)) if dimer else build(E, "g", n, edges, fixed, noh, pairs, mono)
+    g = build_dimer(E, "g", dimer, edges, (1, 2) if dimer <= 3 else (1,)) if dimer else build(E, "g", n, edges, fixed, noh, pairs, mono, neg)
     canon = GC(backend=backend)
     cg1 = canon.make_canonical_graph(g)
     sig1 = canon.canonical_signature(g)
@@ -202,6 +202,10 @@ def shards(tier, seed):
         for es in all_shapes(5, max_edges=5):
             if len(es) >= 4:
                 sh.append(dict(h="canon", params=dict(n=5, edges=es, backend="nauty", copy="Canon", relab="rev", fixed=True)))
+    # charges -1 / -2: different labels whose hash() values coincide in CPython
+    for n_, es_ in ((2, [[1, 2]]), (3, [[1, 2], [2, 3]]), (3, [[1, 2], [1, 3], [2, 3]])):
+        for be in BACKENDS:
+            sh.append(dict(h="canon", params=dict(n=n_, edges=es_, backend=be, copy="Canon", relab="sym", noh=True, mono=True, neg=True)))
     # two-fold symmetric dimers of rooted three-atom graphs (6 atoms) under every numbering [thorough: of one rooted
     # four-atom graph, 8 atoms, reversed insertion order]
     for half in ([[1, 2], [1, 3], [2, 3]],) + (() if q else ([[1, 2], [2, 3]], [[1, 2], [1, 3]])):
